@@ -47,6 +47,11 @@ func runLayoutGenerated(bin string, seed uint64) *RunReport {
 			if c.Op != "init" {
 				c.Sub = subs[rng.Intn(len(subs))]
 				c.DirMode = dirModes[rng.Intn(len(dirModes))]
+			} else if rng.Chance(1, 3) {
+				// init from the project root with --dir spelled some way (init has
+				// its own directory argument; whatever it makes of --dir, it must
+				// not plant a second store inside the first)
+				c.DirMode = []string{"abs", "absergo", "ergo", "rel", "slash", "dot"}[rng.Intn(6)]
 			} else if rng.Chance(1, 2) {
 				c.Extra = []string{[]string{".", "./", r.W.Proj}[rng.Intn(3)]}
 				if len(c.Extra[0]) > 3 {
